@@ -414,13 +414,13 @@ def judge_monitor(case, scenarios, w, scratch_root):
         updated.clear()
         fake.stage_calls = 0
         sm.run(fake)
-        if not updated.wait(20):
+        if not updated.wait(60):
             sm.kill()
             if fake.stage_calls >= 2:
                 report(w, 'CheckStatus did not complete for scenario %r (exception inside the monitor)' % (first,),
                             {'case': case, 'where': 'progress', 'scenarios': [first], 'problem': 'no-update'})
             else:
-                w.note_inconclusive('StatusMonitor first action not observed within 20 s')
+                w.note_inconclusive('StatusMonitor first action not observed within 60 s')
             return
         with sm.mtx_compute_status:
             total = exp.statusFile.totalProgress()
